@@ -5,7 +5,7 @@ from . import decls as D
 
 I64 = (1 << 63) - 1
 
-CORPUS_VERSION = 17
+CORPUS_VERSION = 18
 
 AS = ['match', 'table', None, 'auto']  # None = parameter omitted (auto); 'auto' = written explicitly
 IT_G = ['range', 'next_and_back', 'table', 'table_inline', None, 'auto']
@@ -43,7 +43,7 @@ def build(tier, seed):
                 variants += [('shuf', 'explicit', 'hostile'), ('desc', 'fancy', 'dup'), ('runshuf', 'explicit', 'swap'), ('asc', 'fancy', 'default'), ('shuf', 'explicit', 'idents'), ('asc', 'explicit', 'prefix')]
             else:
                 variants += [('desc', 'explicit', 'default')]
-            light = label.startswith(('gapless_end_u', 'gapless_end_i', 'gapless_cross_', 'gapless_start_i', 'holes_at_', 'holes_span_mod', 'gapless_256', 'gapless_255', 'gapless_128', 'holes_256_variants'))
+            light = label.startswith(('flags_', 'gapless_end_u', 'gapless_end_i', 'gapless_cross_', 'gapless_start_i', 'holes_at_', 'holes_span_mod', 'gapless_256', 'gapless_255', 'gapless_128', 'holes_256_variants'))
             if light:
                 # boundary classes of narrower widths: many shapes, so fewer declaration variants each
                 variants = [variants[(k + j) % len(variants)] for j in range(1 if tier == 'quick' else 2)]
@@ -465,7 +465,7 @@ STRUCT_NAMES = [None, None, None, 'S', 'Iterator', 'Some', 'IntoIterator', 'Iter
 
 def random_values(rr, r):
     lo, hi = D.dom_bounds(r)
-    vs = [v for v in _random_values(rr, r) if lo <= v <= hi]
+    vs = sorted({v for v in _random_values(rr, r) if lo <= v <= hi})
     return vs or [lo]
 
 def _random_values(rr, r):
@@ -477,11 +477,15 @@ def _random_values(rr, r):
             anchors += [(1 << w) - 1, 1 << (w - 1), (1 << w)] + ([-(1 << (w - 1))] if lo < 0 else [])
     anchors = [a for a in anchors if lo <= a <= hi]
     n = rr.choice([1, 2, 2, 3, 3, 4, 5, 8, 13, 40, 130])
-    shape = rr.choice(['gapless', 'holes', 'holes', 'singletons', 'two-anchors'])
+    shape = rr.choice(['gapless', 'holes', 'holes', 'singletons', 'two-anchors', 'flags'])
     a = rr.choice(anchors)
     if shape == 'gapless':
         b = max(lo, min(a - rr.randrange(0, n + 1), hi - n + 1))
         return list(range(b, b + n))
+    if shape == 'flags':
+        top = min(bits, 63) - 1
+        ks = sorted(rr.sample(range(0, top + 1), min(n if n < 20 else 7, top + 1)))
+        return [1 << k for k in ks] + ([0] if rr.random() < 0.2 else [])
     if shape == 'singletons':
         step = rr.choice([2, 3, 256, 65536])
         b = max(lo, min(a, hi - step * n))
@@ -616,6 +620,19 @@ def write_workspace(root, insts, repo='/repo', shards=16, crate_prefix='s', host
         with open(os.path.join(cdir, 'Cargo.toml'), 'w') as f:
             f.write('[package]\nname = "%s"\nversion = "0.0.0"\nedition = "2021"\n[lib]\npath = "src/lib.rs"\n[dependencies]\nenum-tools = { path = "%s" }\n' % (cname, repo))
         lines = (['#![no_std]'] if hostile else []) + ['#![allow(dead_code, unused_imports, non_camel_case_types, non_snake_case, non_upper_case_globals, unused_macros)]', 'pub mod pm { }']
+        if hostile:
+            # user impls of comparison / conversion / arithmetic traits for the primitive integer types (as linking e.g. serde_json adds):
+            # derived code that leaves an integer type to inference (`x as _`, an unsuffixed literal next to `==`) stops compiling
+            lines.append('pub struct HostileW;')
+            for r in D.REPRS:
+                lines += ['impl ::core::cmp::PartialEq<HostileW> for %s { fn eq(&self, _: &HostileW) -> bool { false } }' % r,
+                          'impl ::core::cmp::PartialOrd<HostileW> for %s { fn partial_cmp(&self, _: &HostileW) -> ::core::option::Option<::core::cmp::Ordering> { ::core::option::Option::None } }' % r,
+                          'impl ::core::ops::Add<HostileW> for %s { type Output = %s; fn add(self, _: HostileW) -> %s { self } }' % (r, r, r),
+                          'impl ::core::ops::Sub<HostileW> for %s { type Output = %s; fn sub(self, _: HostileW) -> %s { self } }' % (r, r, r),
+                          'impl ::core::convert::From<HostileW> for %s { fn from(_: HostileW) -> %s { 0 } }' % (r, r),
+                          'impl ::core::cmp::PartialEq<%s> for HostileW { fn eq(&self, _: &%s) -> bool { false } }' % (r, r)]
+            lines += ['impl ::core::cmp::PartialEq<HostileW> for str { fn eq(&self, _: &HostileW) -> bool { false } }', "impl<'a> ::core::cmp::PartialEq<HostileW> for &'a str { fn eq(&self, _: &HostileW) -> bool { false } }",
+                      'impl ::core::ops::Index<HostileW> for [&str] { type Output = str; fn index(&self, _: HostileW) -> &str { "" } }']
         for i in sorted(per[j]):
             x = insts[i]
             x['crate'] = cname
